@@ -17,7 +17,12 @@ func modelApplies(s Setting) bool {
 	if s.API != "flate" || s.Dict != nil || !s.Accelerated() {
 		return false
 	}
-	return buildName == "noasm" || VerifLevel() == 0
+	if buildName == "noasm" || VerifLevel() == 0 {
+		return true
+	}
+	// Huffman-only has no match finder: at the accelerated levels only the packer differs
+	// (assembly at level 4), so the same model applies with bytes compared instead of chunks
+	return s.Level == -2 && buildName == "asm" && VerifLevel() >= 1
 }
 
 // cost estimate of running the history in the extracted model (list-based buffers)
@@ -122,6 +127,10 @@ func (p *DriverPool) ModelW(s Setting, datas [][]byte, ops []Op, failAt int) (*M
 
 // compareModel runs the history in the model and reports the first difference, if any.
 func compareModel(rep *Report, pool *DriverPool, c interface{}, s Setting, datas [][]byte, ops []Op, failAt int, obs *WObs) {
+	if failAt == 0 && oracleApplies(s) {
+		compareOracle(rep, pool, c, s, datas, ops, obs)
+		return
+	}
 	if pool == nil || !modelApplies(s) || obs.Panic != "" || obs.Ctor != "" {
 		return
 	}
@@ -137,6 +146,11 @@ func compareModel(rep *Report, pool *DriverPool, c interface{}, s Setting, datas
 	}
 	modelSeq := uint64(total)*1315423911 + uint64(len(ops))*2654435761 + uint64(failAt)*97
 	if modelTier != "thorough" && (rep.Prop == "C16" || rep.Prop == "C14") && total > 3000 && modelSeq%10 != 0 {
+		rep.Count("model:skipped-sampled-out")
+		return
+	}
+	if modelTier != "thorough" && total > 30000 && !(buildName == "asm" && VerifLevel() == 0) {
+		// quick tier: the largest histories are compared on one target only
 		rep.Count("model:skipped-sampled-out")
 		return
 	}
@@ -189,6 +203,9 @@ func compareModel(rep *Report, pool *DriverPool, c interface{}, s Setting, datas
 				diff = fmt.Sprintf("destination %d: bytes differ at offset %d (model %d bytes, implementation %d bytes)", d, firstDiff(ja, jb), len(ja), len(jb))
 				break
 			}
+			if buildName == "asm" && VerifLevel() >= 1 {
+				continue // assembly packers stop at different points: chunk boundaries are not compared
+			}
 			if len(a) != len(b) {
 				diff = fmt.Sprintf("destination %d: same bytes but %d chunks in the model, %d Write calls in the implementation", d, len(a), len(b))
 				break
@@ -209,5 +226,131 @@ func compareModel(rep *Report, pool *DriverPool, c interface{}, s Setting, datas
 		rep.ModelDiffs++
 		rep.mu.Unlock()
 		rep.Violate("model-mismatch", "", "writer model (coq/WModel wrun) vs implementation: "+diff, c)
+	}
+}
+
+// ---- accelerated levels: the model re-run with the recorded match-finder answers (coq/WModel/Oracle.v) ----
+
+func oracleApplies(s Setting) bool {
+	return hooksAvailable && s.API == "flate" && s.Dict == nil && s.Accelerated() && s.Level != -2 && buildName == "asm" && VerifLevel() >= 1
+}
+
+// compareOracle re-runs the history with the recorder attached, checks the contract of every recorded
+// call and compares the implementation's bytes with the model's run on the recorded answers.
+func compareOracle(rep *Report, pool *DriverPool, c interface{}, s Setting, datas [][]byte, ops []Op, obs *WObs) {
+	if pool == nil || !oracleApplies(s) || obs.Panic != "" || obs.Ctor != "" {
+		return
+	}
+	total := 0
+	for i, op := range ops {
+		if op.K == "w" {
+			total += opLen(datas, ops, i)
+		}
+	}
+	budget := 70000
+	if modelTier == "thorough" {
+		budget = 300000
+	}
+	if !modelAffordable(datas, ops, budget) {
+		rep.Count("oracle:skipped-too-large")
+		return
+	}
+	if modelTier != "thorough" && total > 30000 && VerifLevel() != 4 {
+		rep.Count("oracle:skipped-sampled-out")
+		return
+	}
+	if modelTier != "thorough" && total > 6000 && total%8 != 0 {
+		rep.Count("oracle:skipped-sampled-out")
+		return
+	}
+	var calls []GenCall
+	o2 := RunWRec(s, datas, ops, &calls)
+	if !o2.Recorded {
+		rep.Note("match-finder recorder could not be attached")
+		return
+	}
+	for d := range obs.Dests {
+		if d >= len(o2.Dests) || !bytes.Equal(o2.Bytes(d), obs.Bytes(d)) {
+			rep.Violate("recording-changes-output", "", "the run with the match-finder recorder attached produced different bytes", c)
+			return
+		}
+	}
+	for i, k := range calls {
+		if !k.Extended {
+			rep.Violate("match-finder-contract", "", fmt.Sprintf("call %d: the tokens returned do not extend the tokens passed in", i), c)
+			return
+		}
+	}
+	var b strings.Builder
+	w4 := 0
+	if s.Win4K {
+		w4 = 1
+	}
+	fmt.Fprintf(&b, "O 1 %d %d %s", s.Level, w4, encodeCalls(calls))
+	cur := make([]int, len(datas))
+	for _, op := range ops {
+		switch op.K {
+		case "w":
+			d := datas[op.Src]
+			a := cur[op.Src]
+			e := a + op.N
+			if e > len(d) {
+				e = len(d)
+			}
+			cur[op.Src] = e
+			b.WriteString(" w")
+			if e > a {
+				b.WriteString(hexs(d[a:e]))
+			}
+		default:
+			b.WriteString(" " + op.K)
+		}
+	}
+	ans, err := pool.Ask(b.String())
+	if err != nil {
+		rep.Note("model driver error: " + err.Error())
+		return
+	}
+	f := strings.Split(ans, " ")
+	if len(f) != 8 || f[0] != "O" {
+		rep.Note("driver answered " + trunc(ans, 200))
+		return
+	}
+	rep.mu.Lock()
+	rep.ModelCases++
+	rep.Hist["oracle:calls-checked"] += len(calls)
+	rep.mu.Unlock()
+	rep.Count("oracle:compared")
+	diff := ""
+	switch {
+	case f[2] != "1":
+		rep.Violate("match-finder-contract", "", "a recorded match-finder call violates the contract lz_ok (token invalid where it stands, distance beyond the window or the data, or the tokens do not decode to the input they cover)", c)
+		return
+	case f[1] != "0":
+		diff = "the model did not make the recorded sequence of match-finder calls (arguments differ, or the implementation made fewer calls)"
+	case f[4] != "0":
+		diff = "the implementation made " + f[4] + " more match-finder calls than the model"
+	case f[5] != "1":
+		diff = "a block of the model's trace fails event_ok_b"
+	}
+	if diff == "" {
+		ds := strings.Split(f[7], "|")
+		if len(ds) != len(obs.Dests) {
+			diff = fmt.Sprintf("model has %d destinations, implementation %d", len(ds), len(obs.Dests))
+		} else {
+			for d := range ds {
+				mb := unhex(ds[d])
+				if !bytes.Equal(mb, obs.Bytes(d)) {
+					diff = fmt.Sprintf("destination %d: bytes differ at offset %d (model %d bytes, implementation %d bytes)", d, firstDiff(mb, obs.Bytes(d)), len(mb), len(obs.Bytes(d)))
+					break
+				}
+			}
+		}
+	}
+	if diff != "" {
+		rep.mu.Lock()
+		rep.ModelDiffs++
+		rep.mu.Unlock()
+		rep.Violate("model-mismatch", "", "writer model with recorded match-finder answers (coq/WModel/Oracle.v orun) vs implementation: "+diff, c)
 	}
 }
